@@ -82,6 +82,8 @@ def on_index_spec():
             env.shape("matrix", 1) == env.shape("rates"),
             env.shape("widths") == ni,
             env.shape("scales") == ni,
+            # the callers hand over a zeroed matrix (np.zeros in calculate_matrix); what the kernel must do is *accumulate* over the Gaussians
+            z3.ForAll([t, r], z3.Implies(z3.And(inb(t, env.shape("times")), inb(r, env.shape("rates"))), env.sel("matrix", t, r) == 0), patterns=[env.sel("matrix", t, r)]),
             z3.ForAll([t, r], S(0, t, r) == 0, patterns=[S(0, t, r)]),
             z3.ForAll([i, t, r], z3.Implies(inb(i, ni), S(i + 1, t, r) == S(i, t, r) + tm(env, i, t, r)), patterns=[S(i + 1, t, r)]),
         ]
@@ -98,11 +100,11 @@ def on_index_spec():
         return [cell(old, now, old.ghost["S"](k, t, r))]
 
     def inv1(old, now, k):
-        S, ni_ = old.ghost["S"], now["n_i"]
+        S, ni_ = old.ghost["S"], now.loopvar(0)
         return [cell(old, now, S(ni_, t, r) + z3.If(r < k, tm(old, ni_, t, r), 0)), inb(ni_, old.shape("centers"))]
 
     def inv2(old, now, k):
-        S, ni_, nr_ = old.ghost["S"], now["n_i"], now["n_r"]
+        S, ni_, nr_ = old.ghost["S"], now.loopvar(0), now.loopvar(1)
         return [cell(old, now, S(ni_, t, r) + z3.If(z3.Or(r < nr_, z3.And(r == nr_, t < k)), tm(old, ni_, t, r), 0)), inb(ni_, old.shape("centers")), inb(nr_, old.shape("rates"))]
 
     params = [("matrix", "arr2"), ("rates", "arr1"), ("times", "arr1"), ("centers", "arr1"), ("widths", "arr1"), ("scales", "arr1"), ("backsweep", "bool"), ("backsweep_period", "real")]
@@ -134,6 +136,7 @@ def all_indices_spec():
             env.shape("all_widths", 0) == nw,
             env.shape("all_widths", 1) == ni,
             env.shape("scales") == ni,
+            z3.ForAll([w, t, r], z3.Implies(z3.And(inb(w, nw), inb(t, env.shape("times")), inb(r, env.shape("rates"))), env.sel("matrix", w, t, r) == 0), patterns=[env.sel("matrix", w, t, r)]),
             z3.ForAll([w, t, r], S2(w, 0, t, r) == 0, patterns=[S2(w, 0, t, r)]),
             z3.ForAll([w, i, t, r], z3.Implies(z3.And(inb(w, nw), inb(i, ni)), S2(w, i + 1, t, r) == S2(w, i, t, r) + tm2(env, w, i, t, r)), patterns=[S2(w, i + 1, t, r)]),
         ]
@@ -150,7 +153,7 @@ def all_indices_spec():
         return [cell(old, now, w < k)]
 
     def ghost_for_callee(ex, st, vars_):
-        nw_ = st.vars["n_w"]
+        nw_ = st.vars[ex.loops[0]["var"]]
         S2 = ex.ghost["S2"]
         return {"S": lambda i_, t_, r_: S2(nw_, i_, t_, r_)}
 
